@@ -3,6 +3,7 @@ name `datetime` of pjplan.schedule is replaced by a subclass whose now() returns
 no source hook), builds resources / outside tasks / the WBS through the public API, records the
 abstract input the scheduler sees (orders taken from a clone()), runs calc (twice on one scheduler
 object, once on a fresh one, once with another clock) and records the observation."""
+import json
 import math
 import signal
 import time
@@ -249,8 +250,21 @@ def run_case(case):
         set_clock(case['now'])
         fwd = case['dir'] == 'fwd'
         supplied = {}
+        # Half of the calendar-edit cases edit the calendar IN PLACE (a DirectCalendar operand inside the resource's
+        # calendar expression gets set_units between the two calculations) instead of handing the resource another
+        # calendar object: whoever remembers a calendar's answers has nothing that tells him to forget them.
+        import zlib as _zlib
+        import random as _random
+        from pjplan import DirectCalendar as _Direct
+        edit_names = [n for n, _ in (case.get('edit_calendars') or [])]
+        in_place = bool(edit_names) and _zlib.crc32(json.dumps(case['tasks'], sort_keys=True).encode()) % 2 == 0
+        holidays = {}
         for r in case['resources']:
-            supplied[r['name']] = Resource(r['name'], build_calendar(r['cal']))
+            cal = build_calendar(r['cal'])
+            if in_place and r['name'] in edit_names:
+                holidays[r['name']] = _Direct({})
+                cal = cal - holidays[r['name']]          # nothing dated yet: the difference is the calendar itself
+            supplied[r['name']] = Resource(r['name'], cal)
         # tasks outside the scheduled WBS
         other = WBS()
         ext = []
@@ -427,7 +441,15 @@ def run_case(case):
             except BaseException:  # noqa
                 pass
             for name, cal in case['edit_calendars']:
-                if name in supplied:
+                if name in holidays:
+                    lrng = _random.Random('%s/%s' % (name, case['pbound']))
+                    d0 = case['pbound'] // DAY_US + (0 if fwd else -12)
+                    more = {}
+                    for _ in range(lrng.randint(1, 6)):
+                        more[(d0 + lrng.randint(0, 12)) * DAY_US] = lrng.choice([1, 2, 4, 8, 8, 16, 32])
+                    holidays[name].set_units({from_us(k): v for k, v in more.items()})
+                    out.setdefault('edited_in_place', []).append([name, [[k, ['i', v]] for k, v in more.items()]])
+                elif name in supplied:
                     supplied[name].calendar = build_calendar(cal)
         before = snapshot(wbs, ext)
         # the scheduler object of the first calculation is reused in half of the calendar-edit cases
